@@ -100,7 +100,13 @@ pub async fn world_check(cx: &Ctx, name: &str, hist_key: &str) -> Result<World, 
     }
     for s in SUBS {
         let Some(topic) = w.subs.get(s).cloned() else { continue };
+        // conservation: every unacknowledged message is exactly once either in the backlog or leased
+        let before = cx.stats(s).await?.map(|st| st.backlog + st.outstanding).unwrap_or(0);
         let got = drain_all(cx, s).await?.map_err(|c| v("subscription-wedged", format!("Pull on existing {} = {:?}", s, c)))?;
+        let distinct: BTreeSet<&String> = got.iter().map(|m| &m.msg_id).collect();
+        if got.len() != distinct.len() || before != distinct.len() {
+            return Err(v("message-accounting", format!("{}: backlog+outstanding was {} at quiescence, the final drain (each delivery acknowledged at once) delivered {} messages, {} distinct", s, before, got.len(), distinct.len())));
+        }
         for t in TOPICS {
             let has = got.iter().any(|m| m.data == format!("probe:{}", t).into_bytes());
             let should = topic == t && w.topics.contains(t);
@@ -445,4 +451,77 @@ pub fn c08_sched(thorough: bool) -> Vec<Unit> {
         v.push(explore_unit(format!("sched/{}", n), format!("{:?} (mailbox capacity {:?}); one id per message in request order, ids follow the real-time order of publishes, first deliveries on each subscription (hand-out order) follow id order", p, caps), Bounds::new(dd), ExecCfg { caps, ..Default::default() }, c01_c08_scenario(n, p, true, None)));
     }
     v
+}
+
+// ------------------------------------------------------------------------------------------- C02
+
+/// Acknowledgement is final and local, over a concurrent history: once an Acknowledge returned OK before the delivery's
+/// deadline, that message is never delivered again on that subscription (program + final drain); the other
+/// subscription still gets every message.
+fn c02_scenario(name: &'static str, progs: Vec<Vec<COp>>) -> ScenFn {
+    scen!([progs] |cx| {
+        must!(cx, "setup:create-topic", { let a = cx.api.clone(); async move { a.create_topic(T0).await } });
+        must!(cx, "setup:create-sub", { let a = cx.api.clone(); async move { a.create_sub(S0, T0, 10, None).await } });
+        must!(cx, "setup:create-sub", { let a = cx.api.clone(); async move { a.create_sub(S1, T0, 10, None).await } });
+        let ids = must!(cx, "setup:publish", { let a = cx.api.clone(); async move { a.publish(T0, vec![(b"a".to_vec(), vec![]), (b"b".to_vec(), vec![]), (b"c".to_vec(), vec![])]).await } });
+        let l = start(&cx, &progs, &[]);
+        tryv!(await_termination(&cx, &l, name).await);
+        let key = l.hist.key();
+        tryv!(l.close_streams(&cx).await);
+        let calls = l.hist.calls();
+        // all deliveries on S0: (ack id, message id, receive time)
+        let mut delivs: Vec<(u64, String, i64)> = vec![];
+        for c in &calls {
+            if let (R::Msgs(Ok(v)), COp::PullNow(s, _) | COp::PullBlock(s, _) | COp::Stream(s, _)) = (&c.result, &c.op) {
+                if *s == S0 {
+                    for m in v {
+                        delivs.push((m.ack_id.parse().unwrap_or(0), m.msg_id.clone(), c.ret_ms));
+                    }
+                }
+            }
+        }
+        let t_end = cx.now_ms();
+        let w = tryv!(world_check(&cx, name, &key).await);
+        for m in w.drained.get(S0).cloned().unwrap_or_default() {
+            if !m.data.starts_with(b"probe:") {
+                delivs.push((m.ack_id.parse().unwrap_or(0), m.msg_id.clone(), t_end));
+            }
+        }
+        for c in &calls {
+            let is_ack = matches!(&c.op, COp::AckLast(s) | COp::AckHeld(s, _) if *s == S0);
+            if !is_ack || !c.result.is_ok() {
+                continue;
+            }
+            for id in &c.arg_ids {
+                let Ok(n) = id.parse::<u64>() else { continue };
+                let Some((_, msg, recv)) = delivs.iter().find(|d| d.0 == n).cloned() else { continue };
+                if c.ret_ms >= recv + 10_000 {
+                    continue; // the lease may already have ended: finality is not promised
+                }
+                if let Some(later) = delivs.iter().find(|d| d.1 == msg && d.0 > n) {
+                    return ScenarioOut::viol(format!("{}/delivered-again-after-ack", name), format!("message {} (ack id {}) was acknowledged with OK at {} ms, within its deadline, and was delivered again with ack id {}: {}", msg, n, c.ret_ms, later.0, key));
+                }
+            }
+        }
+        // the other subscription's copies are untouched
+        let on_s1: BTreeSet<String> = calls.iter().filter_map(|c| match (&c.result, &c.op) { (R::Msgs(Ok(v)), COp::PullNow(s, _)) if *s == S1 => Some(v.iter().map(|m| m.msg_id.clone()).collect::<Vec<_>>()), _ => None }).flatten().chain(w.drained.get(S1).cloned().unwrap_or_default().into_iter().map(|m| m.msg_id)).collect();
+        for id in &ids {
+            if !on_s1.contains(id) {
+                return ScenarioOut::viol(format!("{}/other-subscription-lost-its-copy", name), format!("message {} never arrived on {} although only {} was acknowledged: {}", id, S1, S0, key));
+            }
+        }
+        ScenarioOut::ok(key)
+    })
+}
+
+pub fn c02_sched(thorough: bool) -> Vec<Unit> {
+    use COp::*;
+    let d = if thorough { 4 } else { 3 };
+    let progs: Vec<(&'static str, Vec<Vec<COp>>)> = vec![
+        ("pull;ack‖pull;ack", vec![vec![PullNow(S0, 1), AckLast(S0)], vec![PullNow(S0, 1), AckLast(S0)]]),
+        ("pull;ack‖pull;ack‖pull", vec![vec![PullNow(S0, 1), AckLast(S0)], vec![PullNow(S0, 2), AckLast(S0)], vec![PullNow(S0, 10), PullNow(S1, 1)]]),
+        ("pull;ack‖pull;nack‖pull;ack", vec![vec![PullNow(S0, 1), AckLast(S0)], vec![PullNow(S0, 1), NackLast(S0)], vec![PullNow(S0, 10), AckLast(S0)]]),
+        ("stream‖pull;ack", vec![vec![Stream(S0, 1)], vec![PullNow(S0, 1), AckLast(S0), PullNow(S0, 1), AckLast(S0)]]),
+    ];
+    progs.into_iter().map(|(n, p)| explore_unit(format!("sched/{}", n), format!("{:?} on a subscription holding 3 messages; an ack that returned OK within the deadline is final (program deliveries + final drain), the other subscription keeps all its copies", p), Bounds::new(if p.len() >= 3 { d - 1 } else { d }), ExecCfg::default(), c02_scenario(n, p))).collect()
 }
